@@ -50,7 +50,9 @@ LeafEvent(k) ==
     [] k = "string" -> "string" [] k = "bytes" -> "arr:au8" [] k \in {"time", "ctime"} -> "time"
     [] k = "url" -> "rid" [] k = "uid" -> "uid" [] k = "media" -> "media" [] k = "iface" -> "int"
 
-Count(vc) == CASE vc = "empty" -> 0 [] vc = "one" -> 1 [] vc = "many" -> 3 [] vc = "long" -> 17 [] OTHER -> 1
+Count(vc) == CASE vc = "empty" -> 0 [] vc = "one" -> 1 [] vc = "many" -> 3 [] vc = "long" -> 17
+               [] vc = "eight" -> 8 [] vc = "sixtyfour" -> 64     \* whole bytes of a bit array, whole words
+               [] OTHER -> 1
 
 RECURSIVE Shape(_, _), Repeat(_, _), IsEmptyVal(_, _)
 Repeat(s, n) == IF n = 0 THEN <<>> ELSE s \o Repeat(s, n - 1)
@@ -91,7 +93,8 @@ ElemCount(t, vc) == IF t.k = "array" THEN 3 ELSE Count(vc)
 (* them; nil and empty are alike for omitted fields                        *)
 VClassesFor(t) ==
   CASE t.k = "ptr" -> {"nil", "one"}
-    [] t.k \in {"slice", "map"} -> {"empty", "one", "many", "long"}
+    [] t.k = "slice" -> {"empty", "one", "many", "long", "eight", "sixtyfour"}
+    [] t.k = "map" -> {"empty", "one", "many", "long"}
     [] t.k = "array" -> {"many"}
     [] t.k = "struct" -> {"empty", "one", "many", "long", "nil"}
     [] t.k \in {"string", "bytes"} -> {"empty", "one", "long"}
